@@ -3,8 +3,8 @@
 // (through UsernameCaseMapped/UsernameCasePreserved::width_mapping_rule), the generated 16.0.0
 // WIDE_NARROW_MAPPING table (real, 226 entries), Codepoints comparisons, binary_search_by.
 // Oracle: <wide>/<narrow> decomposition mappings recomputed from UnicodeData.txt 16.0.0.
-use crate::oracle;
-use crate::sup::*;
+use super::oracle;
+use super::sup::*;
 use precis_core::profile::Rules;
 use precis_profiles::{UsernameCaseMapped, UsernameCasePreserved};
 
